@@ -90,7 +90,7 @@ def chain_models(nodes, edges):
 # ------------------------------------------------------------------------------------------ feedback topologies (C05)
 def gen_fb(rng, family=None):
     """Feedback scenario skeleton: (nodes, models, receiver id, sender id or None, pre_ops)."""
-    fam = family or rng.choice(["down", "up", "outside", "sub-up", "sub-down", "resfb"])
+    fam = family or rng.choice(["down", "up", "outside", "sub-up", "sub-down", "resfb", "resfb-fun"])
     d = rng.randint(1, 2)
     pre = []
     if fam == "down":
@@ -129,6 +129,13 @@ def gen_fb(rng, family=None):
         nodes = [r, make_node(rng, 1, "fun", d), make_node(rng, 2, rng.choice(["acc", "fun"]), d)]
         models = [{"nodes": [0, 1, 2], "edges": [[0, 1], [1, 2]]}]
         recv, send = 0, None
+    elif fam == "resfb-fun":  # reservoir with Wfb fed back by a plain (non-trainable) downstream node: forcing by receiver name is allowed
+        res = make_node(rng, 0, "res", d)
+        u = len(res["W"])
+        res.update(kind="resfb", Wfb=mat(rng, u, u, 2, 1), fbact=rng.choice(["id", "relu", "half"]), fb={"node": 1})
+        nodes = [res, make_node(rng, 1, rng.choice(["fun", "acc"]), u)]
+        models = [{"nodes": [0, 1], "edges": [[0, 1]]}]
+        recv, send = 0, 1
     else:  # resfb: reservoir with Wfb fed back by its readout
         res = make_node(rng, 0, "res", d)
         u = len(res["W"])
